@@ -118,7 +118,7 @@ func run(c *vf.Ctx) {
 		h.ATags["v1"] = r.Intn(n)
 		h.ATags["rel/1.0"] = r.Intn(n)
 		h.Tags["light"] = r.Intn(n)
-		ids, err := g.Import(dir, h)
+		ids, err := gitx.New(dir+".home").Import(dir, h) // own HOME per repository: gitx.Import names its marks file after the global call counter, which two parallel imports can share
 		if err != nil {
 			c.Broken("import: %v", err)
 			return
